@@ -21,7 +21,21 @@ fn norm_res(r: Result<Result<NormalizedString, NormalizedStringError>, String>) 
     }
 }
 
+static NOISY: std::sync::atomic::AtomicBool = std::sync::atomic::AtomicBool::new(false);
+static NOISE_CTR: std::sync::atomic::AtomicUsize = std::sync::atomic::AtomicUsize::new(0);
+/// while NOISY is set, unrelated calls into other modules precede every recorded call (see util::noise)
+fn maybe_noise() {
+    use std::sync::atomic::Ordering;
+    if NOISY.load(Ordering::Relaxed) {
+        crate::util::noise(NOISE_CTR.fetch_add(1, Ordering::Relaxed) + 3);
+    }
+}
+fn set_noisy(on: bool) {
+    NOISY.store(on, std::sync::atomic::Ordering::Relaxed);
+}
+
 fn norm_all(tr: &mut Tr, s: &str) {
+    maybe_noise();
     let rs = vec![
         norm_res(guard(|| NormalizedString::new(s))),
         norm_res(guard(|| NormalizedString::from_str(s))),
@@ -40,6 +54,7 @@ fn hash_of(n: &NormalizedString) -> u64 {
 }
 
 fn norm_cmp(tr: &mut Tr, a: &str, bs: &str) {
+    maybe_noise();
     let (Ok(x), Ok(y)) = (NormalizedString::new(a), NormalizedString::new(bs)) else { return };
     let ord = match x.cmp(&y) {
         std::cmp::Ordering::Less => -1,
@@ -124,6 +139,20 @@ pub fn run_norm(args: &Args) -> (u64, u64) {
             vec!["Dhk", "A\u{e9}", "Dhk", "Dh\u{0}"],
             vec!["zz", "{y", "y{", "zz"],
         ];
+        // line endings, blanks, tabs, NULs and a byte order mark before or after otherwise valid names, at and around
+        // the length limit: every constructor gives the same verdict (none of them trims anything)
+        let mut edge: Vec<String> = vec![];
+        for core in ["alice", "ABCDEFGHIJKLMN", "ABCDEFGHIJKLMNO", "ABCDEFGHIJKLMNOP", ""] {
+            for t in ["\r\n", "\n", "\r", " ", "  ", "\t", "\0", "\u{feff}", "\u{a0}", "\u{7f}"] {
+                edge.push(format!("{}{}", core, t));
+                edge.push(format!("{}{}", t, core));
+            }
+        }
+        set_noisy(true);
+        for a in &edge {
+            norm_all(&mut tr, a);
+        }
+        set_noisy(false);      // (the families below rely on being CONSECUTIVE calls)
         for fam in &fams {
             for a in fam {
                 norm_all(&mut tr, a);
@@ -227,6 +256,7 @@ pub fn run_norm(args: &Args) -> (u64, u64) {
 
 // ------------------------------------------------------------------------------- PIN
 fn pin_event(tr: &mut Tr, pin: u32, seed: u32, ssalt: &[u8; 16], csalt: &[u8; 16]) -> Option<[u8; 20]> {
+    maybe_noise();
     let r = guard(|| wow_srp::pin::calculate_hash(pin, seed, ssalt, csalt));
     let res = match &r {
         Ok(Some(h)) => json!({"kind": "some", "hash": b(h)}),
@@ -237,6 +267,7 @@ fn pin_event(tr: &mut Tr, pin: u32, seed: u32, ssalt: &[u8; 16], csalt: &[u8; 16
     r.ok().flatten()
 }
 fn pin_verify_event(tr: &mut Tr, pin: u32, seed: u32, ssalt: &[u8; 16], csalt: &[u8; 16], hash: &[u8; 20]) {
+    maybe_noise();
     let r = guard(|| wow_srp::pin::verify_client_pin_hash(pin, seed, ssalt, csalt, hash));
     let res = match r {
         Ok(v) => json!({"kind": "bool", "ok": v}),
@@ -307,6 +338,8 @@ pub fn run_pin(args: &Args) -> (u64, u64) {
                 let mut h4 = h;
                 for x in h4.iter_mut().skip(16) { *x = !*x; }
                 pin_verify_event(&mut tr, *pin, seed, &ss, &cs, &h4);
+                // after the refusals above the right hash is accepted as before
+                pin_verify_event(&mut tr, *pin, seed, &ss, &cs, &h);
                 // right hash, wrong pin / seed / salts
                 pin_verify_event(&mut tr, pin.wrapping_add(1), seed, &ss, &cs, &h);
                 pin_verify_event(&mut tr, *pin, seed.wrapping_add(1), &ss, &cs, &h);
@@ -327,6 +360,8 @@ pub fn run_pin(args: &Args) -> (u64, u64) {
                             pin_verify_event(&mut tr, *pin, seed, &ss, &cs, &h2);
                         }
                     }
+                    // after all those refusals the right hash is still right
+                    pin_verify_event(&mut tr, *pin, seed, &ss, &cs, &h);
                     let (mut rs, mut rc) = (ss, cs);
                     rs.reverse();
                     rc.reverse();
@@ -353,8 +388,9 @@ pub fn run_pin(args: &Args) -> (u64, u64) {
     }
     // the functions are pure: sequences of related seeds (quotients and residues of the previous seed by 10!, 9!, 10;
     // the previous seed again; 0) must each give the specification's hash whatever was asked before
+    for noisy in [false, true] {
     tr.reset("pin-sequences");
-    {
+    set_noisy(noisy);   // second pass: unrelated calls into other modules between the recorded ones
         let mut firsts: Vec<u32> = vec![0, 1, 5, 3628799, 3628800, 3628801, 7257605, 18_144_001, 362_880, 1_000_000, 4_294_967_295, 4_293_870_400];
         for _ in 0..(if thorough { 200 } else { 12 }) {
             firsts.push(rng2.gen());
@@ -367,6 +403,7 @@ pub fn run_pin(args: &Args) -> (u64, u64) {
                 }
             }
         }
+        set_noisy(false);
     }
     // block digests over seed ranges (residues modulo 10! exhaustively in thorough) and wrap-around seeds
     let blocks: Vec<u32> = if thorough { (0..886).collect() } else { vec![0, 1, 9, 443, 885] };
@@ -408,6 +445,7 @@ fn split_random(r: &mut StdRng, data: &[u8], parts: usize) -> Vec<Vec<u8>> {
 }
 
 fn integ_event(tr: &mut Tr, f: &str, files: &[Vec<u8>], salt: &[u8; 16], key: &[u8; 32]) {
+    maybe_noise();
     let r = guard(|| match f {
         "windows" => wow_srp::integrity::login_integrity_check_windows(&files[0], &files[1], &files[2], &files[3], &files[4], salt, key),
         "mac" => wow_srp::integrity::login_integrity_check_mac(&files[0], &files[1], &files[2], &files[3], &files[4], salt, key),
@@ -483,6 +521,26 @@ pub fn run_integrity(args: &Args) -> (u64, u64) {
     // keys and salts with zero bytes at either end, all-zero and all-0xFF values (every function must hash all 32 / 16 bytes)
     let mut data = vec![0u8; 100];
     rng.fill_bytes(&mut data);
+    // the client public key is 32 opaque bytes here: values that are NOT valid public keys (0, N, 2N mod 2^256) and their
+    // neighbours are hashed as they are
+    {
+        let n_le: [u8; 32] = wow_srp::LARGE_SAFE_PRIME_LITTLE_ENDIAN;
+        let mut specials: Vec<[u8; 32]> = vec![n_le, [0u8; 32]];
+        let mut t = n_le; t[0] = t[0].wrapping_add(1); specials.push(t);
+        let mut t = n_le; t[0] = t[0].wrapping_sub(1); specials.push(t);
+        let mut t = n_le; t.reverse(); specials.push(t);
+        let mut two_n = [0u8; 32];
+        let mut carry = 0u16;
+        for i in 0..32 { let v = (n_le[i] as u16) * 2 + carry; two_n[i] = v as u8; carry = v >> 8; }
+        specials.push(two_n);
+        let mut t = [0u8; 32]; t[0] = 1; specials.push(t);
+        for k2 in specials {
+            let files = split_random(&mut rng, &data, 5);
+            integ_event(&mut tr, "windows", &files, &salt, &k2);
+            integ_event(&mut tr, "mac", &files, &salt, &k2);
+            integ_event(&mut tr, "generic", &[data.clone()], &salt, &k2);
+        }
+    }
     for k in 0..13usize {
         let mut k2 = key;
         let mut s2 = salt;
@@ -510,6 +568,7 @@ pub fn run_integrity(args: &Args) -> (u64, u64) {
     // padding at the START or the END of any single argument are hashed like every other byte
     {
         tr.reset("integrity-magic");
+        set_noisy(true);     // unrelated calls into other modules between the recorded ones (off again below)
         let magics: Vec<Vec<u8>> = vec![
             vec![0xEF, 0xBB, 0xBF], vec![0xFE, 0xFF], vec![0xFF, 0xFE], vec![0xFF, 0xFE, 0, 0], vec![0], vec![0, 0, 0, 0], vec![0x0D, 0x0A], vec![0x0A],
             b"MZ".to_vec(), vec![0x7F, b'E', b'L', b'F'], b"<?xml".to_vec(), b"PK\x03\x04".to_vec(), b"#!".to_vec(), b" ".to_vec(), vec![0x1A], vec![0xCA, 0xFE, 0xBA, 0xBE],
@@ -544,6 +603,7 @@ pub fn run_integrity(args: &Args) -> (u64, u64) {
     // asked for twice, buffers of equal length at the same address - nothing may be remembered from an earlier call
     {
         tr.reset("integrity-inplace");
+        set_noisy(false);
         let mut one = vec![vec![0u8; 300]];
         rng.fill_bytes(&mut one[0]);
         let mut five: Vec<Vec<u8>> = (0..5).map(|i| vec![i as u8 + 1; 40 + i]).collect();
@@ -565,6 +625,7 @@ pub fn run_integrity(args: &Args) -> (u64, u64) {
             }
         }
     }
+    set_noisy(false);
     for _ in 0..(if thorough { 200 } else { 20 }) {
         let mut s = [0u8; 16];
         rng.fill_bytes(&mut s);
@@ -617,16 +678,19 @@ fn card_geometry_events(tr: &mut Tr, rng: &mut StdRng, d: u8, h: u8, w: u8, all_
         for (i, k) in ks.iter().enumerate() {
             let k = *k;
             let r = guard(|| {
-                let a: Vec<String> = card.to_printer().skip(k).collect();
-                let st: Vec<String> = card.to_printer().step_by(k.max(1)).collect();
+                // (every walk is cut off a little beyond the number of cells: a printer that does not advance must not
+                // run away with the harness)
+                let cap = n + 3;
+                let a: Vec<String> = card.to_printer().skip(k).take(cap).collect();
+                let st: Vec<String> = card.to_printer().step_by(k.max(1)).take(cap).collect();
                 let mut it = card.to_printer();
                 let first = it.nth(k);
                 let mut rest: Vec<String> = first.into_iter().collect();
-                rest.extend(it);
+                rest.extend(it.take(cap));
                 let mut it2 = card.to_printer();
                 let _ = it2.next();
                 let hint = it2.size_hint();
-                (a, st, rest, card.to_printer().count(), card.to_printer().last(), hint)
+                (a, st, rest, card.to_printer().take(cap).count(), card.to_printer().take(cap).last(), hint)
             });
             match r {
                 Ok((a, st, rest, count, last, hint)) => tr.ev(json!({"ev": "CardPrint", "d": d, "h": h, "w": w, "data": b(&data), "k": k,
@@ -666,6 +730,7 @@ fn card_geometry_events(tr: &mut Tr, rng: &mut StdRng, d: u8, h: u8, w: u8, all_
 
 /// get_matrix_coordinates for a list of rounds on one verifier configuration: one event
 fn coord_events(tr: &mut Tr, count: u8, h: u8, seed: u64, w: u8, key: &[u8; 40], rounds: &[u8]) -> Vec<Option<(u8, u8)>> {
+    maybe_noise();
     let mut out = vec![];
     let mut res = vec![];
     for round in rounds {
@@ -716,6 +781,7 @@ pub fn run_matrix(args: &Args) -> (u64, u64) {
         if gi % 8 == 7 {
             tr.reset("matrix");
         }
+        set_noisy(gi % 2 == 1);     // every other geometry with unrelated calls into other modules in between
         let cells = *w as usize * *h as usize;
         let d: u8 = [1u8, 2, 3, 4][gi % 4];
         let Some((card, data)) = card_geometry_events(&mut tr, &mut rng, d, *h, *w, thorough || cells <= 36) else { continue };
@@ -792,6 +858,7 @@ pub fn run_matrix(args: &Args) -> (u64, u64) {
     // and the same seed under different geometries
     {
         tr.reset("matrix-sequences");
+        set_noisy(false);
         let key = [5u8; 40];
         let mut firsts: Vec<u64> = vec![0, 1, 5, 79, 80, 81, 6399, 6400, 512_000, u64::MAX, 14574472801782155463];
         for _ in 0..(if thorough { 60 } else { 6 }) {
@@ -902,6 +969,33 @@ pub fn run_rng(args: &Args) -> (u64, u64) {
     });
     draws_event(&mut tr, "Login", "full login + 2 reconnect attempts", o, r, u, s, json!({}));
 
+    // a CLONE of a logged-in server is another server: the challenges it offers after its own attempts are as fresh as
+    // the original's (observed: four refreshed challenges of the original and of its clone, per session)
+    {
+        let sessions = if thorough { 1024 } else { 256 };
+        let (o, r, u, s) = batch(sessions, threads, |_| {
+            let v = SrpVerifier::from_username_and_password(NS::new("A").unwrap(), NS::new("B").unwrap());
+            let p = v.into_proof();
+            let bpub = wow_srp::PublicKey::from_le_bytes(*p.server_public_key()).unwrap();
+            let c = wow_srp::client::SrpClientChallenge::new(NS::new("A").unwrap(), NS::new("B").unwrap(), 7, wow_srp::LARGE_SAFE_PRIME_LITTLE_ENDIAN, bpub, *p.salt());
+            let apub = wow_srp::PublicKey::from_le_bytes(*c.client_public_key()).unwrap();
+            let (mut srv, _m2) = p.into_server(apub, *c.client_proof()).unwrap();
+            let mut twin = srv.clone();
+            let mut out = vec![];
+            for _ in 0..4 {
+                let _ = srv.verify_reconnection_attempt([1u8; 16], [2u8; 20]);
+                out.extend_from_slice(srv.reconnect_challenge_data());
+                let _ = twin.verify_reconnection_attempt([1u8; 16], [2u8; 20]);
+                out.extend_from_slice(twin.reconnect_challenge_data());
+            }
+            out
+        });
+        // one observable per challenge
+        let mut each: Vec<Vec<u8>> = vec![];
+        for v in &o { for ch in v.chunks(16) { each.push(ch.to_vec()); } }
+        let _ = (r, u, s);
+        draws_event(&mut tr, "CloneRefresh", "SrpServer::clone + verify_reconnection_attempt", each, vec![], vec![], vec![], json!({}));
+    }
     for (exp, site) in [("vanilla", "VanillaSeed"), ("tbc", "TbcSeed"), ("wrath", "WrathSeed")] {
         for via in ["new", "default"] {
             let (o, r, u, s) = batch(n, threads, move |_| {
